@@ -21,6 +21,7 @@
 #include <boost/fusion/include/mpl.hpp>
 #include <boost/msm/front/state_machine_def.hpp>
 #include <boost/msm/front/functor_row.hpp>
+#include <boost/msm/front/row2.hpp>
 #include <boost/msm/front/completion_event.hpp>
 #if VF_FAMILY == 1
 #include <boost/msm/back/state_machine.hpp>
